@@ -77,6 +77,13 @@ static void *mkdest(size_t dmax, int w, size_t extra_elems) {
     cur_dest = D.p; cur_dbytes = D.obj; before_byte = 0xEE;
     return D.p;
 }
+/* dest at the very start of its slot: the page in front of it is the guard (a read or write before dest faults) */
+static void *mkdest_left(size_t dmax, int w) {
+    D.n = dmax; D.w = w; D.obj = dmax * w; if (D.obj > sizeof D.prior) D.obj = sizeof D.prior;
+    D.p = slot[0]; memset(slot[0], 0xEE, SLOTSZ); memset(D.p, 0xAA, D.obj); memcpy(D.prior, D.p, D.obj);
+    cur_dest = D.p; cur_dbytes = D.obj; before_byte = 0xEE;
+    return D.p;
+}
 /* the byte in front of dest (ordinarily filler) holds a given value: dest as the next slot of a text block */
 static void set_before(unsigned char v) { D.p[-1] = v; before_byte = v; }
 static unsigned long dget(size_t i) { return D.w == 1 ? D.p[i] : ((uint32_t *)D.p)[i]; }
@@ -97,7 +104,7 @@ static void judge(int usable, int failed, int code, unsigned flags, int has_dest
         if (has_dest) { if (D.p[-1] != before_byte) report("write-before-dest"); else for (int i = 2; i <= 64; i++) if (D.p[-i] != 0xEE) { report("write-before-dest"); break; } }
         return;
     }
-    if (P == 2) { if (fault == 2) { char b[64]; snprintf(b, sizeof b, "read-fault|%s", fault_slot == 0 ? "dest+end" : fault_slot > 0 ? "source+end" : "wild"); report(b); } return; }
+    if (P == 2) { if (fault == 2) { char b[64]; snprintf(b, sizeof b, "read-fault|%s", fault_slot == 0 && fault_off < -(long)SLOTSZ ? "before-dest" : fault_slot == 0 ? "dest+end" : fault_slot > 0 ? "source+end" : "wild"); report(b); } return; }
     if (fault) return;
     int reported = failed > 0 || h_n > 0;
     if (P == 3) {
@@ -437,15 +444,16 @@ static void g_os(void) {
             judge(dmax > 0, r != 0, r, SP, 1);
         } }
     /* asctime_s / ctime_s */
-    struct tm tms[6]; memset(tms, 0, sizeof tms);
+    struct tm tms[9]; memset(tms, 0, sizeof tms);
     tms[0].tm_year = 100; tms[0].tm_mon = 3; tms[0].tm_mday = 5; tms[0].tm_wday = 3;
     tms[1].tm_year = 8099; tms[1].tm_mon = 11; tms[1].tm_mday = 31; tms[1].tm_hour = 23; tms[1].tm_min = 59; tms[1].tm_sec = 59; tms[1].tm_wday = 6;   /* year 9999 */
     tms[2].tm_year = 8100; tms[2].tm_mon = 0; tms[2].tm_mday = 1;            /* year 10000 */
     tms[3].tm_year = 100; tms[3].tm_mon = 12; tms[3].tm_mday = 1;            /* month out of range */
     tms[4].tm_year = -2000; tms[4].tm_mday = 1;                              /* negative year */
     tms[5].tm_year = 100; tms[5].tm_mday = 1; tms[5].tm_wday = 7;            /* weekday out of range */
+    tms[7] = tms[0]; tms[7].tm_gmtoff = 2000000; tms[8] = tms[0]; tms[8].tm_gmtoff = -2000000;      /* the nine standard members valid, the UTC offset (a member this platform adds) far outside a day */
     size_t admax[] = { 0, 1, 25, 26, 27, 40, 119, 120, 121 };
-    for (int ti = 0; ti < 7; ti++) for (int di = 0; di < 9; di++) for (int extra = 0; extra < 2; extra++) {
+    for (int ti = 0; ti < 9; ti++) for (int di = 0; di < 9; di++) for (int extra = 0; extra < 2; extra++) {
         size_t dmax = admax[di]; char rel[64]; snprintf(rel, sizeof rel, "%s,%s", dmax == 0 ? "dmax0" : dmax < 26 ? "dmax<26" : dmax < 120 ? "26<=dmax<120" : "dmax>=120", ti == 6 ? "tm-null" : ti == 0 || ti == 1 ? "tm-valid" : "tm-out-of-range");
         begin("asctime_s", rel, "asctime %d %zu %d", ti, dmax, extra);
         char *d = mkdest(dmax, 1, extra ? 3 : 0); int r = 0; const struct tm *tp = ti == 6 ? NULL : mksrc(1, &tms[ti], sizeof(struct tm));
@@ -524,6 +532,17 @@ static void g_os(void) {
         if (pv == 2) { for (size_t i = 0; i < dmax; i++) d[i] = (i % 3) == 2 ? '\n' : 'o'; memcpy(D.prior, D.p, D.obj); }
         CALL(r = gets_s_(d, dmax, BOSU));
         judge(1, r == NULL && ll > 0, 0, SP | SL, 1);
+    }
+    /* short lines (the empty one among them) into a dest with nothing accessible in front of it */
+    if (P == 1 || P == 2) for (size_t dmax = 1; dmax <= 5; dmax += 2) for (int li = 0; li < 6; li++) {
+        static const char *LN[] = { "\n", "a\n", "", "ab", "\r\n", "\n\n" };
+        char rel[96]; snprintf(rel, sizeof rel, "%s,dest-at-the-start-of-accessible-memory", li == 0 || li == 5 ? "empty-line" : li == 2 ? "empty-input" : "short-line");
+        begin("gets_s", rel, "gets-left %zu %d", dmax, li);
+        char in[8]; strcpy(in, LN[li]);
+        if (stdin) fclose(stdin); stdin = fmemopen(in, strlen(in) ? strlen(in) : 1, "r"); if (!in[0]) (void)fgetc(stdin), clearerr(stdin);
+        char *d = mkdest_left(dmax, 1); char *r = NULL;
+        CALL(r = gets_s_(d, dmax, BOSU)); (void)r;
+        if (P == 2) judge(1, 0, 0, SP, 1); else if (fault == 1) judge(1, 0, 0, SP, 1);
     }
     for (size_t dmax = 1; dmax <= 9; dmax += 4) for (int first = 0; first < 3; first++) for (int pv = 0; pv < 2; pv++) {
         static const char *FIRST[] = { "", "ab", "ab\n" };
